@@ -241,6 +241,32 @@ class Family:
                           **({"csvkw": csvkw} if csvkw else {}), **({"tz": tz} if tz else {}), "ops": ops})
         return cases
 
+    def huge_cases(self, tier):
+        """a few histories over 8 300 - 9 000 points (beyond any power-of-two threshold up to 8192): one in-order
+        insert_multiple, reads and getters, a removal that leaves a handful of points, reads again"""
+        hx = V.hx
+        T0 = G.T0
+        cfgs = [("csv", "auto"), ("mem", "auto")] if tier == "quick" else CFGS
+        out = []
+        for j, (st, au) in enumerate(cfgs):
+            r = G.Gen(C.seed() * 7 + j).r
+            n = r.randint(8300, 9000)
+            tiny = sorted(r.sample(range(n), 3))
+            pts = [["pt", str(T0 + i), hx("tiny" if i in tiny else "big"), ["tags", [hx("k"), hx(str(i % 7))]],
+                    ["fields", [hx("f"), str(i % 5)]]] for i in range(n)]
+            cut = tiny[1]
+            ops = [["ins", "~"] + pts, ["len"], ["count", ["time", ["cmp", "ge", f"t:{T0 + n - 10}"]], "~"],
+                   ["H", ["timestamps", hx("tiny")]], ["fieldvalues", hx("f"), hx("tiny")],
+                   ["search", ["tag", hx("k"), ["cmp", "eq", "s:" + hx("3")]], hx("tiny"), "1"]]
+            if j % 2 == 0:
+                ops += [["drop", hx("big")]]                                           # scan / measurement path
+            else:
+                ops += [["remove", ["time", ["cmp", "gt", f"t:{T0 + 1}"]], "~"]]       # index-exact query, 2 survivors
+            ops += [["len"], ["all", "1"], ["timestamps", "~"], ["ins", "~", ["pt", str(T0 + n + 5), hx("tiny"), ["tags"], ["fields"]]],
+                    ["count", ["noop", "time"], "~"]]
+            out.append({"cfg": ["cfg", st, au], "ops": ops})
+        return out
+
     def enumerated(self, depth):
         """every operation sequence of the given depth over a small alphabet, from three start states, in the
         four configurations (the quantifier of C06; used by the other history properties in the thorough tier)"""
@@ -312,7 +338,8 @@ class Family:
         if search:
             n *= 3
         maxlen = 10 if tier == "quick" else 24
-        cases = self.corpus() + self.random_cases(n, C.seed() * 31 + int(self.prop[1:]), maxlen)
+        huge = self.huge_cases(tier)
+        cases = huge + self.corpus() + self.random_cases(n, C.seed() * 31 + int(self.prop[1:]), maxlen)
         enum_depth = 0
         if self.prop == "C06":
             enum_depth = 2 if tier == "quick" else 3
@@ -322,7 +349,9 @@ class Family:
         cases += enum_cases
         nproc = min(16, os.cpu_count() or 4)
         chunk = max(8, (len(cases) + nproc * 2 - 1) // (nproc * 2))
-        jobs = [(cases[i:i + chunk], model_ok, with_probes) for i in range(0, len(cases), chunk)]
+        # each huge history is a job of its own (they take seconds), the rest goes in chunks; order is preserved
+        jobs = [([c], model_ok, with_probes) for c in huge]
+        jobs += [(cases[i:i + chunk], model_ok, with_probes) for i in range(len(huge), len(cases), chunk)]
         stats = {}
         results = []
         with multiprocessing.Pool(nproc) as pool:
